@@ -154,6 +154,7 @@ def _replay_slice(module, cfg_template, consts, ezdrive, workers=None, nproc=Non
     summ = tlc_summary(out)
     errs = tlc_errors(out)
     fails, cases, crashes = [], 0, 0
+    hist = {}
     for f in sorted(glob.glob(os.path.join(work, "out.x*"))):
         got_summary = False
         for line in open(f):
@@ -165,6 +166,7 @@ def _replay_slice(module, cfg_template, consts, ezdrive, workers=None, nproc=Non
                 raise Infra("unparsable replay output in %s: %s" % (f, line[:200]))
             if j.get("summary"):
                 cases += j["cases"]; crashes += j.get("crashes", 0); got_summary = True
+                for hk, hv in j.get("hist", {}).items(): hist[hk] = hist.get(hk, 0) + hv
             else:
                 fails.append(j)
         if not got_summary:
@@ -185,7 +187,7 @@ def _replay_slice(module, cfg_template, consts, ezdrive, workers=None, nproc=Non
                 samples.append({"history": [short_op(o) for o in c["path"]], "call": short_op(c["op"]), "expected_outcome": c.get("out")})
             except ValueError:
                 pass
-    res = {"tlc": summ, "samples": samples, "stderr": stderr_tail, "keep_mod": keep_mod * sample_k, "tlc_errors": errs, "tlc_out_tail": out[-3000:], "cases": cases, "fails": fails, "crashes": crashes,
+    res = {"tlc": summ, "samples": samples, "stderr": stderr_tail, "keep_mod": keep_mod * sample_k, "hist": hist, "tlc_errors": errs, "tlc_out_tail": out[-3000:], "cases": cases, "fails": fails, "crashes": crashes,
            "wall": wall, "trace_ops": condensed_trace(out), "rc": r.returncode, "pipe_out": r.stdout[-1000:]}
     if summ is None:
         raise Infra("TLC produced no summary for %s:\n%s\n%s" % (module, out[-2000:], r.stdout[-1000:]))
